@@ -17,6 +17,8 @@
    threads (pools 0..8). *)
 From Coq Require Import NArith List Lia.
 From Mtbl Require Import model.Bytes model.Pool proofs.PoolProofs.
+(* source ties: the statements of the C functions the model follows (gen/Ties.v is regenerated from /repo on every run) *)
+From Mtbl Require props.Ties_C13.
 Local Open Scope N_scope.
 
 (* a schedule: at each step, the thread that runs; for a signal the waiter woken (if any);
